@@ -1,6 +1,7 @@
 package main
 
 import (
+	"sync"
 	"fmt"
 	"go/ast"
 	"go/token"
@@ -33,6 +34,9 @@ type World struct {
 	pm           *parserModel
 	callSites    map[*ssa.Function][]ssa.CallInstruction
 	lexModel     *lexSSAModel
+	memo         map[string]interface{}
+	memoMu       sync.Mutex
+	callMdl      *callModel
 	nonNegFields map[*types.Var]int
 	prog         *ssa.Program
 	ssaPkgs      map[string]*ssa.Package
@@ -204,6 +208,24 @@ func recvTypeName(d *ast.FuncDecl) string {
 
 // Funcs returns every function declaration (with a body) of package rel.
 func (w *World) Funcs(rel string) []*FuncInfo {
+	w.memoMu.Lock()
+	if w.memo == nil {
+		w.memo = map[string]interface{}{}
+	}
+	k := "Funcs/"+rel
+	if v, ok := w.memo[k]; ok {
+		w.memoMu.Unlock()
+		return v.([]*FuncInfo)
+	}
+	w.memoMu.Unlock()
+	v := w.FuncsUncached(rel)
+	w.memoMu.Lock()
+	w.memo[k] = v
+	w.memoMu.Unlock()
+	return v
+}
+
+func (w *World) FuncsUncached(rel string) []*FuncInfo {
 	p := w.Pkgs[rel]
 	if p == nil {
 		return nil
